@@ -5,7 +5,7 @@
 //!    "body":{"ts":[T..],"vs":[V..]},"le":bool,"bare":bool,"via":"builder"|"header"}
 //! `fields` holds the user-settable fields only; SIGNATURE / UNIX_FDS are the builder's business.
 //! `bare`: a single non-struct argument is passed as the body value itself instead of a 1-tuple.
-//! `via = header`: the message is first built with an empty body, its `Header` taken, the flags set
+//! `via = header`: the message is first built with a body of its own (fd + string), its `Header` taken, the flags set
 //! on the header, and the final message built from `Builder::from(header)` (the only public route
 //! to NO_REPLY_EXPECTED on a non-call message).
 use crate::absmsg::*;
@@ -130,7 +130,10 @@ pub fn build_message(case: &J, pool: &mut FdPool) -> R<Message> {
     let bits = hdr["flags"].as_u64().unwrap();
     let mut b = builder_for(hdr, le)?;
     if case["via"].as_str() == Some("header") {
-        let m0 = b.build(&()).map_err(es)?;
+        // the donor message has a body of its own (a file descriptor and a string): what its header says about
+        // that body (signature, number of fds) must not leak into the message built from the header
+        let donor_fd = zvariant::Fd::from(std::os::fd::OwnedFd::from(std::fs::File::open("/dev/null").map_err(|e| e.to_string())?));
+        let m0 = b.build(&(donor_fd, "donor")).map_err(es)?;
         let mut h = m0.header();
         let mut fl = h.primary().flags(); // empty: m0 was built without flags
         for x in flag_list(bits) {
